@@ -46,6 +46,8 @@ def run(ctx):
     check_range(ctx, facts)
     check_padding(ctx, facts)
     check_pad_constructors(ctx, facts)
+    from rules import C09
+    C09.decoders(ctx, facts, siblings=False)   # decoders of padded / range-restricted types reject non-canonical byte strings
     check_accumulator(ctx, facts)
     check_accumulator_window(ctx, facts)
     check_dzkp_consts(ctx, facts)
